@@ -3,11 +3,12 @@
   Theorems for the event debouncer (all producer/stopper scripts, all schedules, all clock advances)
   and for the auto-restart trick (`WD.Rst`: all client scripts of start()/event/stop()/sleep, all
   child lifetimes, kill delays, debounce intervals, all schedules, all clock advances).
-  The shell-command trick is explored over a simulated process table by the harness and judged by
-  trace predicates (no theorem here: see evidence / DESIGN.md).
+  The shell-command trick (`WD.Shell`) driven by one dispatching thread: all event/sleep scripts, all
+  command lifetimes, all schedules and clock advances.
 -/
 import WD.Proofs.Debouncer
 import WD.Proofs.Restart
+import WD.Proofs.Shell
 namespace WD.C18
 open WD.Deb WD.ProofsDeb
 
@@ -102,5 +103,30 @@ example :
   decide +kernel
 
 end restart
+
+/-! ### ShellCommandTrick (`WD.Shell`) -/
+
+/-- with `wait_for_process` or `drop_during_process` commands never overlap: in every reachable state (any script of
+    events and pauses of the one dispatching thread, any command lifetimes, any schedule of the dispatcher and the
+    watcher threads, any advance of the clock) two running commands are the same command -/
+theorem shell_no_overlap (wait drop : Bool) (lifetimes : List (Option Nat)) (script : List Shell.Op)
+    (sas : List Shell.Action) (hwd : wait = true ∨ drop = true) (p q : Nat)
+    (hp : (Shell.run (Shell.init wait drop lifetimes script) sas).aliveP p = true)
+    (hq : (Shell.run (Shell.init wait drop lifetimes script) sas).aliveP q = true) : p = q :=
+  ProofsShell.no_overlap wait drop lifetimes script sas hwd p q hp hq
+
+/-- non-vacuity: drop mode, three events 0.1 s apart, commands last 0.25 s: the second event is dropped, the third
+    runs after the first command's watcher has seen it end -/
+example :
+    let s := Shell.run (Shell.init false true [some 250, some 250] [.event, .sleep 100, .event, .sleep 300, .event])
+      [.step 0, .step 0, .step 1, .tick 100, .step 0, .step 1, .tick 100, .step 1, .tick 100, .step 1, .tick 100, .step 0, .step 0]
+    s.procs.length = 2 ∧ s.aliveList = [1] := by
+  decide +kernel
+
+/-- … and without either option they do overlap (the hypothesis is needed) -/
+example :
+    let s := Shell.run (Shell.init false false [some 250, some 250] [.event, .event]) [.step 0, .step 0]
+    s.aliveList = [0, 1] := by
+  decide +kernel
 
 end WD.C18
